@@ -845,4 +845,78 @@ theorem runOps_dinv : ∀ (ops : List Op) (w : World), (∀ op ∈ ops, OpOk op)
     obtain ⟨named', ht', h'⟩ := step_dinv w op (hok op (List.mem_cons_self ..)) named snt ht h
     exact runOps_dinv ops (step w op) (fun o ho => hok o (List.mem_cons_of_mem _ ho)) named' snt ht' h'
 
+/-! ### bursts of console_putchar beyond the ring's capacity; sequences of console_process -/
+
+/-- what a burst of `console_putchar` does to the ring: the final ring and, per character, what
+    `ringbuf_put` returned -/
+def putLog : List Byte → List Byte → List Byte × List Bool
+  | ring, [] => (ring, [])
+  | ring, c :: cs => ((putLog (ringPut ring c).1 cs).1, (ringPut ring c).2 :: (putLog (ringPut ring c).1 cs).2)
+
+/-- the characters for which `ringbuf_put` returned true -/
+def acceptedOf : List Byte → List Bool → List Byte
+  | c :: cs, true :: rs => c :: acceptedOf cs rs
+  | _ :: cs, false :: rs => acceptedOf cs rs
+  | _, _ => []
+
+theorem putLog_ring : ∀ (cs ring : List Byte), (putLog ring cs).1 = ring ++ acceptedOf cs (putLog ring cs).2
+  | [], ring => by simp [putLog, acceptedOf]
+  | c :: cs, ring => by
+    unfold putLog
+    show (putLog (ringPut ring c).1 cs).1 = _
+    rw [putLog_ring cs]
+    unfold ringPut
+    by_cases h : ring.length + 1 ≥ ringLen
+    · simp only [if_pos h, acceptedOf]
+    · simp only [if_neg h, acceptedOf]; simp
+
+/-- nothing is consumed during the burst, so exactly the first `15 - fill` characters are accepted -/
+theorem accepted_take : ∀ (cs ring : List Byte), ring.length < ringLen →
+    acceptedOf cs (putLog ring cs).2 = cs.take (ringLen - 1 - ring.length)
+  | [], _, _ => by simp [putLog, acceptedOf]
+  | c :: cs, ring, hr => by
+    unfold putLog
+    unfold ringPut
+    by_cases h : ring.length + 1 ≥ ringLen
+    · simp only [if_pos h, acceptedOf]
+      have ih := accepted_take cs ring hr
+      have h0 : ringLen - 1 - ring.length = 0 := by omega
+      rw [h0] at ih ⊢
+      rw [ih]; simp
+    · simp only [if_neg h, acceptedOf]
+      have ih := accepted_take cs (ring ++ [c]) (by rw [List.length_append]; simp only [List.length_singleton]; omega)
+      rw [ih, List.length_append]
+      simp only [List.length_singleton]
+      have : ringLen - 1 - ring.length = (ringLen - 1 - (ring.length + 1)) + 1 := by omega
+      rw [this, List.take_succ_cons]
+
+theorem putchars_log : ∀ (cs : List Byte) (s : St),
+    (cs.foldl putchar s).ring = (putLog s.ring cs).1 ∧ (cs.foldl putchar s).eaten = s.eaten ∧
+    (cs.foldl putchar s).fpt = s.fpt ∧ (cs.foldl putchar s).stuck = s.stuck ∧
+    (cs ≠ [] → (cs.foldl putchar s).runnable = true)
+  | [], s => ⟨rfl, rfl, rfl, rfl, fun h => absurd rfl h⟩
+  | c :: cs, s => by
+    obtain ⟨a1, a2, a3, a4, a5⟩ := putchars_log cs (putchar s c)
+    simp only [List.foldl_cons]
+    refine ⟨by rw [a1]; rfl, a2, a3, a4, fun _ => ?_⟩
+    cases cs with
+    | nil => rfl
+    | cons d ds => exact a5 (by simp)
+
+theorem processes_deliver (n : Nat) (tab : Table) (named : List Cmd) (snt : Cmd)
+    (ht : TableOk tab named snt) (hn : n = named.length) : ∀ (cs : List Byte) (s : St), DInv n s → s.fpt ≠ 2 → s.ring = [] →
+    DInv n (cs.foldl (process tab) s) ∧ (cs.foldl (process tab) s).ring = [] ∧ (cs.foldl (process tab) s).fpt ≠ 2 ∧
+    (cs.foldl (process tab) s).eaten = s.eaten ++ cs ∧ (cs.foldl (process tab) s).stuck = s.stuck
+  | [], s, h, hf, hr => ⟨h, hr, hf, by simp, rfl⟩
+  | c :: cs, s, h, hf, hr => by
+    obtain ⟨a1, a2, a3, a4, a5, _⟩ := process_deliver n tab named snt s c ht hn h hf
+    obtain ⟨b1, b2, b3, b4, b5⟩ := processes_deliver n tab named snt ht hn cs (process tab s c) a1 (by rw [a3]; decide) a2
+    simp only [List.foldl_cons]
+    refine ⟨b1, b2, b3, ?_, by rw [b5, a5]⟩
+    rw [b4, a4, hr]
+    have hrl := ringLen_eq
+    unfold ringPut
+    rw [if_neg (by simp; omega)]
+    simp
+
 end Librfn.Lemmas.ConsoleDeliver
